@@ -35,6 +35,10 @@ def case_fn(c):
     elif kind == "grid":
         fails = oracle.check_grid_search(c["model"], c["grid"], c["param_map"], c["outputs"], vectorize=c["vec"], permute=c.get("permute", False),
                                          as_frame=c.get("as_frame"), inputs=c.get("inputs"))
+    elif kind == "dde_field":
+        fails = oracle.check_dde_field(c["model"], c["solver"], seed=c.get("seed", 0))
+    elif kind == "dde_run":
+        fails = oracle.check_dde_run(c["model"], c["solver"], T=c.get("T", 2.0), dts=c.get("dts", 0.05))
     elif kind == "outputs":
         fails = oracle.check_outputs(c["model"], c["request"], c["form"], c["vec"])
     else:
